@@ -4,8 +4,9 @@ EXTENDS Sink, CaseIO, SequencesExt
 IdSets == {<<1>>, <<1, 2>>, <<2, 1>>, <<1, 2, 3>>, <<3, 1, 2>>, <<2, 5, 9>>, <<1, 2, 3, 4>>, <<4, 2, 3, 1>>}
 Sizes == {0, 1, 5}
 Perms(q) == {p \in [DOMAIN q -> {q[i] : i \in DOMAIN q}] : \A i, j \in DOMAIN q : i # j => p[i] # p[j]}
-FinCases(ids) == {[op |-> "finalise", ids |-> ids, sizes |-> sz, write_order |-> wo, keep |-> k, base |-> b] :
-                    sz \in [DOMAIN ids -> Sizes], wo \in Perms(ids), k \in BOOLEAN, b \in {"default", "elsewhere"}}
+\* pre: what is at the destination path when the sink is finalised - nothing, or the (longer) file of an earlier run that is to be replaced
+FinCases(ids) == {[op |-> "finalise", ids |-> ids, sizes |-> sz, write_order |-> wo, keep |-> k, base |-> b, pre |-> pr] :
+                    sz \in [DOMAIN ids -> Sizes], wo \in Perms(ids), k \in BOOLEAN, b \in {"default", "elsewhere"}, pr \in {"absent", "old"}}
 LimCases == {[op |-> "limits", cls |-> cls, kw |-> <<a, b, c, d>>] :
                cls \in {"file", "s3", "delayed"}, a \in Opt({1, 8}), b \in Opt({64, 1024 * 1024}), c \in Opt({0, 2}), d \in Opt({50, 20000})}
 VARIABLE c
